@@ -61,6 +61,19 @@ func wireSource(d *decoderSet, sizeF *types.Var, v ssa.Value) bool {
 		return false
 	}
 	f := call.Call.StaticCallee()
+	// an integer assembled by hand from bytes a decoder read (binary.LittleEndian.Uint32(prefix))
+	if call.Parent() != nil && d.member[call.Parent()] {
+		name := ""
+		if f != nil && f.Pkg != nil && f.Pkg.Pkg.Path() == "encoding/binary" {
+			name = f.Name()
+		} else if call.Call.IsInvoke() && core.TypeIs(call.Call.Value.Type(), "encoding/binary", "ByteOrder") {
+			name = call.Call.Method.Name()
+		}
+		switch name {
+		case "Uint16", "Uint32", "Uint64":
+			return true
+		}
+	}
 	if f == nil || !d.member[f] {
 		return false
 	}
